@@ -269,6 +269,7 @@ type draft struct {
 	sealOther   bool // the seal is made over a different header
 	sealFlip    int  // bit to flip in the seal, -1 = none
 	foreignSeal bool
+	afterSeal   int // an item put into the digest AFTER the header was sealed (0 none, 1 seal-typed, 2 seal-typed of another engine, 3 consensus item)
 	salt        byte
 }
 
@@ -326,6 +327,17 @@ func (sc *scenario) buildBlock(d *draft) built {
 		sd.ConsensusEngineID = types.ConsensusEngineID{'a', 'u', 'r', 'a'}
 	}
 	b.seal = sd.Data
+	switch d.afterSeal {
+	case 1:
+		add(types.SealDigest{ConsensusEngineID: types.BabeEngineID, Data: append([]byte{0xab, d.salt}, make([]byte, 62)...)})
+	case 2:
+		add(types.SealDigest{ConsensusEngineID: types.ConsensusEngineID{'a', 'u', 'r', 'a'}, Data: []byte{1, 2, 3, d.salt}})
+	case 3:
+		add(types.ConsensusDigest{ConsensusEngineID: types.GrandpaEngineID, Data: []byte{7, d.salt}})
+	}
+	if d.afterSeal != 0 {
+		b.unsealed = mk(0) // the header without its (last) seal now differs from the one that was signed
+	}
 	// NewHeader caches the hash, so the sealed header is built in one go (a
 	// header whose cached hash does not match its content would be an artefact)
 	add(sd)
